@@ -9,6 +9,7 @@ from checks import ctxcommon
 from framework import Case
 
 PROP = "C03"
+GENERATED = ['DtypeTables']  # generated files this check's tie depends on
 LEAN_MODULES = ["Properties.C03"]
 RULE = (
     "exhaustive: every shape string of <=4 dimensions over {0,2,3,a,c=2} with the marker (none / ... / *g) in every position x every array "
